@@ -101,6 +101,22 @@ def run(ctx: Ctx) -> None:
         e = EL.call("clvl", EL.V(n), EL.V(ovs), EL.V(path), EL.V(-5))
         obs = EL.run_sim(EL.build(e), ctx.rng, context=runctx, config_ctx=cfgctx)
         rcases.append({"id": i + 1, "e": e, "ctx": EL.to_value(cfgctx), "run": EL.to_value(runctx), "obs": obs})
+    # several runs on ONE Scheduler object: the root context of every run is the configured context merged with
+    # the context given to THAT run (each run is judged on its own by the model)
+    for i in range(ctx.pick(40, 400)):
+        cfgctx = rand_ctx(ctx.rng)
+        runs, metas = [], []
+        for k in range(ctx.rng.randint(2, 3)):
+            n = ctx.rng.randint(0, 2)
+            ovs = [None if ctx.rng.random() < 0.4 else rand_ctx(ctx.rng) for _ in range(n)]
+            path = [ctx.rng.choice(["a", "b", "c"]) for _ in range(ctx.rng.randint(1, 3))]
+            # a different default per run keeps the calls of successive runs apart (no cache hits across runs)
+            e = EL.call("clvl", EL.V(n), EL.V(ovs), EL.V(path), EL.V(-5 - k - 10 * i))
+            rc = None if ctx.rng.random() < 0.35 else rand_ctx(ctx.rng)
+            runs.append((EL.build(e), rc))
+            metas.append((e, rc))
+        for (e, rc), obs in zip(metas, EL.run_sim_seq(runs, ctx.rng, config_ctx=cfgctx)):
+            rcases.append({"id": len(rcases) + 1, "e": e, "ctx": EL.to_value(cfgctx), "run": EL.to_value(rc or {}), "obs": obs})
     # siblings under one parent: same path and default, different overrides (and none)
     for i in range(ctx.pick(60, 600)):
         ovs = [None if ctx.rng.random() < 0.3 else {"a": {"b": ctx.rng.randint(1, 9)}} if ctx.rng.random() < 0.7
